@@ -19,5 +19,6 @@ INVARIANT FWMonotone
 INVARIANT FWAllowance
 INVARIANT FWRate
 INVARIANT FWTwoRowsExact
+INVARIANT MGDAConfigSound
 INVARIANT Export
 CHECK_DEADLOCK FALSE
